@@ -4,7 +4,7 @@ import json
 import os
 
 ROOT = "/verif"
-HOOK_COMMITS = ["9464261"]
+HOOK_COMMITS = ["9464261", "db74668"]
 
 TB = ("Trusted: Coq 8.16.1 kernel (+vm_compute for evaluating the model on correspondence cases; no native_compute); "
       "the hand-written Gallina model, tied to /repo only by this check's correspondence run against the binary built from /repo's working tree with --cfg vicut_verif; "
@@ -19,6 +19,13 @@ CLAIMED = {
         note=TB + "pest/vic parser not modelled (vic repeat compared at the CLI only); file arguments not generated (file_ok oracle).",
         technique="Coq proof (induction over item trees / stack-machine parser model) + model-vs-binary correspondence",
         design="§9 C12"),
+    "C18": dict(
+        text="Theorems (all well-formed item lists, any nesting): every re-spelling (short/long) parses to the same Opts; the parsed Opts depends only on the option sequence and the command sequence, not on their interleaving (top level); "
+             "option-inside-scope rejection proved as a refutation witness (known finding). Correspondence: real Opts::parse vs model on 7 spelling/position variants of each generated command line; "
+             "the mechanical vic translation of the model's tree is parsed by the binary (tree equality) and all forms executed (byte-identical stdout).",
+        note=TB + "pest/vic parser not modelled: vic side rests on tree comparison and output equality (partial).",
+        technique="Coq proof (parser model = denotation, spelling/position invariance) + model-vs-binary correspondence",
+        design="§9 C18"),
 }
 
 NOT_YET = {}
